@@ -54,6 +54,8 @@ PATTERNS = {
              ("everywhere", "deg2", "dx"), ((2, 3), "none", "ds"), ("everywhere", "none", "ds")],
     "coordderiv": [(1, "none", "dx", "cd"), (1, "none", "dx")],
     "coordderiv_everywhere": [("everywhere", "none", "dx", "cd"), (1, "none", "dx"), (1, "none", "dx", "cd2")],
+    "coordderiv_first_and_second_order": [(1, "none", "dx", "cd"), (1, "none", "dx", "cdcd"), (2, "none", "dx", "cdcd"), (2, "none", "dx", "cd")],
+    "coordderiv_second_then_first": [("everywhere", "none", "dx", "cdcd"), (1, "none", "dx", "cd"), (1, "none", "dx")],
     "coordderiv_two_dirs": [(1, "none", "dx", "cd"), (1, "none", "dx", "cd2"), (1, "none", "dx", "cd")],
 }
 
@@ -79,6 +81,9 @@ def build(pattern):
         I = integrand * m
         if flag in ("cd", "cd2"):
             I = derivative(I, x, w1 if flag == "cd" else w2)
+        if flag == "cdcd":
+            # the same shape derivative applied twice (same direction object): a different chain from a single one
+            I = derivative(derivative(I, x, w1), x, w1)
         F = I if F is None else F + I
     return dom, F
 
